@@ -184,6 +184,42 @@ def main(argv):
                         fail("roundtrip#fixpoint_text", wit, dict(first=text, second=str(t2)))
                 if len(samples) < 2:
                     samples.append(dict(program=name, std=std, options=kw, nodes=len(all_nodes(tree))))
+    if "C10" in only:
+        # trees built through include files: the same file included more than once (a COMMON header used by several
+        # subprograms), nested includes, and the same file in two parses - every inclusion has its own nodes
+        from fparser.common.readfortran import FortranFileReader as _FFR, FortranStringReader as _FSR
+        from fparser.two.parser import ParserFactory as _PF
+        with tempfile.TemporaryDirectory() as di:
+            open(os.path.join(di, "blk.inc"), "w").write("  integer :: n, k(3)\n  common /blk/ n, k\n")
+            open(os.path.join(di, "outer.inc"), "w").write("  real :: w\n  include 'blk.inc'\n")
+            open(os.path.join(di, "body.inc"), "w").write("  n = n + 1\n  if (n > 2) then\n    k(1) = n\n  end if\n")
+            progs = {
+                "same_include_in_two_units": "subroutine a1\n  include 'blk.inc'\n  n = 1\nend subroutine a1\nsubroutine a2\n  include 'blk.inc'\n  n = 2\nend subroutine a2\n",
+                "same_include_twice_in_one_unit": "subroutine b1\n  include 'blk.inc'\n  include 'body.inc'\n  include 'body.inc'\nend subroutine b1\n",
+                "nested_and_direct": "subroutine c1\n  include 'outer.inc'\n  n = 1\nend subroutine c1\nsubroutine c2\n  include 'blk.inc'\n  include 'body.inc'\nend subroutine c2\n",
+            }
+            prev_nodes = None
+            for pname, src in progs.items():
+                open(os.path.join(di, pname + ".f90"), "w").write(src)
+                for std in ("f2003", "f2008"):
+                    for kind in ("string", "file"):
+                        for kw in (dict(), dict(ignore_comments=False)):
+                            cases += 1
+                            wit = dict(program=pname, std=std, reader=kind, options=kw, source=src)
+                            try:
+                                rd = _FSR(src, include_dirs=[di], **kw) if kind == "string" else _FFR(os.path.join(di, pname + ".f90"), include_dirs=[di], **kw)
+                                tree = _PF().create(std=std)(rd)
+                            except BaseException as e:  # noqa
+                                fail("catalogue#parses", wit, "%s: %s" % (type(e).__name__, str(e)[:200]))
+                                continue
+                            if "INCLUDE" in str(tree).upper():
+                                fail("catalogue#parses", wit, "include not resolved")
+                            for p in well_formed(tree):
+                                fail("tree#well_formed", wit, p)
+                            ids = {id(n) for n in all_nodes(tree)}
+                            if prev_nodes is not None and ids & prev_nodes[0]:
+                                fail("tree#parses_share_no_node", dict(first=prev_nodes[1], second=pname, std=std, source=src), "a node of an earlier tree occurs in a later one")
+                            prev_nodes = (ids, pname, tree)
     if "C18" in only:
         # trees parsed through a file reader (the reader is a constructor argument of the root node)
         from fparser.common.readfortran import FortranFileReader
